@@ -756,7 +756,9 @@ func (c *StreamIterators) compactColumn(dstIdx int, ref record.Field, needCalPre
 	// merge column ref
 	_ = c.colBuilder.initEncoder(ref)
 	splitFile = false
-	id := c.chunkItrs[c.iteratorStart].curtChunkMeta.sid
+	// all iterators of c.chunkItrs are positioned on the same series; c.iteratorStart == len(c.chunkItrs) when only the
+	// rows carried over from the previous part of a split chunk (c.lastSeg) are left to write
+	id := c.chunkItrs[0].curtChunkMeta.sid
 	segmentN := 0
 	lastSegRows := c.lastSeg.RowNums()
 	if lastSegRows > 0 {
@@ -772,6 +774,10 @@ func (c *StreamIterators) compactColumn(dstIdx int, ref record.Field, needCalPre
 
 	var rowCount = 0
 	var maxRows = GetMaxRowsPerSegment4TsStore()
+
+	// also when no iterator is left (only carried-over rows): the segment written below belongs to this column
+	c.colBuilder.cm = &c.dstMeta
+	c.colBuilder.colMeta = &c.dstMeta.colMeta[dstIdx]
 
 	for itrIndex := c.iteratorStart; itrIndex < len(c.chunkItrs); itrIndex++ {
 		itr := c.chunkItrs[itrIndex]
@@ -794,8 +800,15 @@ func (c *StreamIterators) compactColumn(dstIdx int, ref record.Field, needCalPre
 			rowCount = srcMeta.Rows(c.ctx.preAggBuilders.timeBuilder)
 		}
 
+		// c.segmentIndex is the position inside the chunk of the first iterator only (where the previous
+		// part of a split chunk stopped); the chunks of the following iterators are merged from their first segment
+		segStart := 0
+		if itrIndex == c.iteratorStart {
+			segStart = c.segmentIndex
+		}
+
 		// merge full segments(full segment: rows in segment EQ 1000)
-		for segIndex := c.segmentIndex; segIndex < len(tm.entries); segIndex++ {
+		for segIndex := segStart; segIndex < len(tm.entries); segIndex++ {
 			if c.isClosed() {
 				err = ErrCompStopped
 				return
@@ -829,6 +842,18 @@ func (c *StreamIterators) compactColumn(dstIdx int, ref record.Field, needCalPre
 					if err = c.decodeSegment(colData, tmData, ref); err != nil {
 						return
 					}
+				}
+			} else if needCalPreAgg {
+				// split chunk: the column is missing in this file; the segment may not be the first of its chunk and
+				// the times are needed next to the (null) values, so take the length from the time segment itself
+				tmSeg := &tm.entries[segIndex]
+				tmData, er := itr.readTimeData(tmSeg.offset, tmSeg.size)
+				if er != nil {
+					err = er
+					return
+				}
+				if err = c.appendNilSegment(tmData, ref); err != nil {
+					return
 				}
 			} else {
 				if rowCount > maxRows {
@@ -865,15 +890,16 @@ func (c *StreamIterators) compactColumn(dstIdx int, ref record.Field, needCalPre
 		}
 	}
 
-	err = c.writeLastSegment(segmentN, ref, id)
+	err = c.writeLastSegment(segmentN, ref, id, needCalPreAgg)
 
 	return
 }
 
-func (c *StreamIterators) writeLastSegment(segmentN int, ref record.Field, id uint64) error {
+func (c *StreamIterators) writeLastSegment(segmentN int, ref record.Field, id uint64, needCalPreAgg bool) error {
 	if c.col.Len > 0 {
 		if segmentN < c.Conf.maxSegmentLimit {
-			if err := c.writeSegment(id, ref, false); err != nil {
+			// the statistics of a split chunk are computed from its values: the last segment counts too
+			if err := c.writeSegment(id, ref, needCalPreAgg); err != nil {
 				return err
 			}
 		} else {
@@ -1434,6 +1460,20 @@ func (c *StreamIterators) decodeSegment(colData []byte, tmData []byte, ref recor
 	c.tmpCol.Init()
 	c.tmpTimeCol.Init()
 
+	return nil
+}
+
+// appendNilSegment appends one segment of a column that the source file does not have: as many null values as the
+// time segment has rows, and the times themselves.
+func (c *StreamIterators) appendNilSegment(tmData []byte, ref record.Field) error {
+	if err := appendTimeColumnData(tmData, c.tmpTimeCol, c.ctx, false); err != nil {
+		c.log.Error("decode time column fail", zap.Error(err))
+		return err
+	}
+	rows := c.tmpTimeCol.Len
+	c.col.AppendColVal(newNilCol(rows, &ref), ref.Type, 0, rows)
+	c.timeCol.AppendColVal(c.tmpTimeCol, influx.Field_Type_Int, 0, rows)
+	c.tmpTimeCol.Init()
 	return nil
 }
 
